@@ -29,6 +29,12 @@ type acfg struct {
 	Free  int
 	Sizes []int // Malloc / Realloc sizes
 	Ks    []int // Append / AppendString byte counts
+	// extended alphabet (rel.go): caller reslices and growth targets relative to the current
+	// len and cap of the handle; RelMax bounds the relative operations per program (0: unbounded),
+	// RelWide selects the wider target set of the thorough tier
+	Ext     bool
+	RelMax  int
+	RelWide bool
 }
 
 func (c *acfg) make() mempool.Allocator {
@@ -82,6 +88,11 @@ func cfgByName(n string) *acfg {
 			return c
 		}
 	}
+	for _, c := range extConfigs("thorough") {
+		if c.Name == n {
+			return c
+		}
+	}
 	return nil
 }
 
@@ -91,9 +102,11 @@ func cfgByName(n string) *acfg {
 const maxHandles = 3
 
 type op struct {
-	K byte // M alloc, A append, S append string, R realloc, F free
+	K byte // M alloc, A append, S append string, R realloc, F free, X reslice by the caller: *p = (*p)[:N]
 	H int  // handle slot (for M: the slot the new buffer goes to = lowest free slot)
 	N int  // size / byte count
+	// Rel: the size was derived from the handle's current len/cap (rel.go); programs stay concrete
+	Rel bool
 }
 
 func (o op) String() string {
@@ -106,13 +119,15 @@ func (o op) String() string {
 		return fmt.Sprintf("S%d+%d", o.H, o.N)
 	case 'R':
 		return fmt.Sprintf("R%d=%d", o.H, o.N)
+	case 'X':
+		return fmt.Sprintf("X%d=%d", o.H, o.N)
 	default:
 		return fmt.Sprintf("F%d", o.H)
 	}
 }
 
 func (o op) name() string {
-	return map[byte]string{'M': "Malloc", 'A': "Append", 'S': "AppendString", 'R': "Realloc", 'F': "Free"}[o.K]
+	return map[byte]string{'M': "Malloc", 'A': "Append", 'S': "AppendString", 'R': "Realloc", 'F': "Free", 'X': "caller-reslice"}[o.K]
 }
 
 func progString(ops []op) string {
@@ -123,7 +138,7 @@ func progString(ops []op) string {
 	return strings.Join(s, " ")
 }
 
-var opRe = regexp.MustCompile(`^([MASRF])(\d+)(?:[+=](\d+))?$`)
+var opRe = regexp.MustCompile(`^([MASRFX])(\d+)(?:[+=](\d+))?$`)
 
 func parseProg(s string) ([]op, error) {
 	var ops []op
@@ -242,6 +257,9 @@ type world struct {
 	ref   [maxHandles][]byte // the reference model: plain contents per live handle
 	grave []*[]byte          // handles given back to the allocator (Free, or replaced by Append/Realloc), oldest first
 	v     *viol
+	// invalid: the program left the program space (a caller reslice beyond the capacity; can
+	// only happen while a witness is being shrunk) - neither a state nor a violation
+	invalid bool
 	// classification of the last operation
 	class  string
 	reused bool // the operation obtained memory that had been given back before
@@ -451,6 +469,30 @@ func (w *world) step(idx int, o op, check bool) {
 			kind = "extend"
 		}
 		w.class = "Realloc " + kind + " " + movedStr(w.moved) + map[bool]string{false: "", true: " recycled"}[w.reused]
+	case 'X':
+		// the caller reslices its buffer within the capacity, as nbio does all over the place
+		// (`*pbuf = (*pbuf)[0:0]` after Malloc, `(*pbuf)[:n]`, `(*pbuf)[:cap(*pbuf)]`): no allocator
+		// call, but it creates the len < cap (and len == cap > requested) states the next
+		// operations start from
+		p := w.live[o.H]
+		oldLen := len(*p)
+		if o.N > cap(*p) {
+			w.invalid = true
+			return
+		}
+		*p = (*p)[:o.N]
+		if o.N <= oldLen {
+			w.ref[o.H] = w.ref[o.H][:o.N:o.N]
+			w.class = "caller-reslice down " + capClass(*p)
+		} else {
+			// the bytes exposed are unspecified: define them now
+			fill((*p)[oldLen:o.N], idx, oldLen)
+			w.ref[o.H] = append(w.ref[o.H][:oldLen:oldLen], (*p)[oldLen:o.N]...)
+			w.class = "caller-reslice up " + capClass(*p)
+		}
+		if check {
+			w.checkOthers(o, o.H, "after the caller resliced its buffer")
+		}
 	case 'F':
 		p := w.live[o.H]
 		w.live[o.H] = nil
@@ -564,6 +606,9 @@ type runRes struct {
 	moved   bool
 	nlive   int
 	gets    int // pool answers that were a real choice (pool not empty)
+	lens    [maxHandles]int
+	caps    [maxHandles]int
+	invalid bool
 }
 
 var digits = regexp.MustCompile(`\d+`)
